@@ -31,6 +31,17 @@ Definition c17_fit (t : c17_ity) (z : Z) : c17_ires :=
   if c17_signed t then (if c17_inrange t z then C17_Val z else C17_UB)
   else C17_Val (z mod 2 ^ c17_width t).
 
+(* integer types narrower than int are promoted: `lower+1` on a short / unsigned short is an int expression (no wrap, no
+   overflow for these magnitudes); the value is converted back to the narrow type only when it is stored or returned,
+   and that conversion is modular (C++20) *)
+Definition c17_promoted (t : c17_ity) : bool := c17_width t <? 32.
+Definition c17_expr (t : c17_ity) (z : Z) : c17_ires :=            (* value of an arithmetic expression whose operands have type t *)
+  if c17_promoted t then C17_Val z else c17_fit t z.
+Definition c17_store (t : c17_ity) (z : Z) : c17_ires :=           (* conversion of such a value to t *)
+  if c17_promoted t
+  then C17_Val (if c17_signed t then (z + 2 ^ (c17_width t - 1)) mod 2 ^ c17_width t - 2 ^ (c17_width t - 1) else z mod 2 ^ c17_width t)
+  else C17_Val z.
+
 Definition c17_bind (r : c17_ires) (f : Z -> c17_ires) : c17_ires :=
   match r with C17_Val z => f z | C17_UB => C17_UB | C17_OutOfFuel => C17_OutOfFuel end.
 
@@ -286,8 +297,9 @@ Definition c17_trunc_down_fix (t : c17_ity) (s : c17_cstyle) (eps val : fl) : c1
   c17_bind (c17_cast t val) (fun lower =>
   if c17_feqb (c17_of_Z lower) val then C17_Val lower else
   c17_bind (if c17_fgt (c17_of_Z lower) val then c17_fit t (lower - 1) else C17_Val lower) (fun lower' =>
-  c17_bind (c17_fit t (lower' + 1)) (fun l1 =>
-  if c17_eq s eps (c17_of_Z l1) val then C17_Val l1 else C17_Val lower'))).
+  if lower' =? c17_imax t then C17_Val lower' else       (* fixes/C17-4.patch: lower+1 is not a value of I *)
+  c17_bind (c17_expr t (lower' + 1)) (fun l1 =>        (* T(lower+1): the int expression for narrow I; `return lower+1` converts *)
+  if c17_eq s eps (c17_of_Z l1) val then c17_store t l1 else C17_Val lower'))).
 
 Definition c17_trunc_up_fix (t : c17_ity) (s : c17_cstyle) (eps val : fl) : c17_ires :=
   c17_bind (c17_trunc_down_fix t s eps val) (fun upper =>
@@ -299,6 +311,27 @@ Definition c17_trunc_fix (r : c17_rstyle) (t : c17_ity) (s : c17_cstyle) (eps va
   | C17_Upward => c17_trunc_up_fix t s eps val
   | C17_TowardZero => if c17_fgt val c17_fzero then c17_trunc_down_fix t s eps val else c17_trunc_up_fix t s eps val
   | C17_TowardInf => if c17_fgt val c17_fzero then c17_trunc_up_fix t s eps val else c17_trunc_down_fix t s eps val
+  end.
+
+(* ---- trunc_t as in the repository BEFORE fixes/C17-4.patch (no guard at max(I)): only used to recognise a tree without that fix ---- *)
+Definition c17_trunc_down_v2 (t : c17_ity) (s : c17_cstyle) (eps val : fl) : c17_ires :=
+  if negb (c17_signed t) && c17_eq s eps val c17_fzero then C17_Val 0 else
+  c17_bind (c17_cast t val) (fun lower =>
+  if c17_feqb (c17_of_Z lower) val then C17_Val lower else
+  c17_bind (if c17_fgt (c17_of_Z lower) val then c17_fit t (lower - 1) else C17_Val lower) (fun lower' =>
+  c17_bind (c17_expr t (lower' + 1)) (fun l1 =>        (* T(lower+1): the int expression for narrow I; `return lower+1` converts *)
+  if c17_eq s eps (c17_of_Z l1) val then c17_store t l1 else C17_Val lower'))).
+
+Definition c17_trunc_up_v2 (t : c17_ity) (s : c17_cstyle) (eps val : fl) : c17_ires :=
+  c17_bind (c17_trunc_down_v2 t s eps val) (fun upper =>
+  if c17_ne s eps (c17_of_Z upper) val then c17_fit t (upper + 1) else C17_Val upper).
+
+Definition c17_trunc_v2 (r : c17_rstyle) (t : c17_ity) (s : c17_cstyle) (eps val : fl) : c17_ires :=
+  match r with
+  | C17_Downward => c17_trunc_down_v2 t s eps val
+  | C17_Upward => c17_trunc_up_v2 t s eps val
+  | C17_TowardZero => if c17_fgt val c17_fzero then c17_trunc_down_v2 t s eps val else c17_trunc_up_v2 t s eps val
+  | C17_TowardInf => if c17_fgt val c17_fzero then c17_trunc_up_v2 t s eps val else c17_trunc_down_v2 t s eps val
   end.
 
 (* power<T,int> for a floating Base: repeated multiplication, reciprocal for p < 0 *)
